@@ -49,6 +49,7 @@ def ddGet (dd : List (Str × Entry)) (nm : Str) : Option Entry := (dd.find? (·.
     puts into `dirnames` / `filenames`) -/
 def Node.isDirNode : Node → Bool
   | .dir _ _ _ => true
+  | .unreadable _ asDir => asDir
   | _ => false
 
 def relJoin (rel nm : Str) : Str := if rel.isEmpty then nm else rel ++ slash :: nm
@@ -122,6 +123,8 @@ def walkDir (c : VCfg) (st : WalkSt) (sysPath rel : Str) : Node → Except Err W
     match visitDir c st sysPath rel dev ino kids with
     | .error e => .error e
     | .ok (st', keep) => walkKids c st' sysPath rel keep kids
+  /- `os.walk` reaches a directory it cannot list: `onerror=throw_exception` -/
+  | .unreadable k true => .error (.os (.code k))
   | _ => .ok st
 def walkKids (c : VCfg) (st : WalkSt) (sysPath rel : Str) (keep : List Str) : List (Str × Node) → Except Err WalkSt
   | [] => .ok st
@@ -151,6 +154,7 @@ def walkFrom (c : VCfg) (st0 : WalkSt) (path rel : Str) : Option Obj → Except 
     -- normalisation a walk from '' starts at "root/", whose children do not find it as their parent)
     walkDir c st0 (if rel.isEmpty then sysRoot else sysRoot ++ slash :: rel) rel (.dir d i ks)
   | some .absent => .error (.os .ENOENT)
+  | some (.fault k) => .error (.os (.code k))
   | some _ => .error (.os .ENOTDIR)
 
 /-- `assert_directory_verifies(path, fail_handler, last_mtime)` -/
